@@ -42,6 +42,7 @@ type checkCtx struct {
 	mu    sync.Mutex
 	fns   map[string]bool // functions under contract
 	ext   map[string]bool // extern models / assumptions used
+	bounded []string
 }
 
 func (c *checkCtx) prog(module string) (*Prog, error) {
@@ -178,6 +179,14 @@ func cmdCheck(id, tier string, writeBaseline bool) int {
 		for _, l := range specs.Lemmas {
 			if !hasProp(l.Props, id) {
 				continue
+			}
+			if l.Tier == "thorough" && tier != "thorough" {
+				continue
+			}
+			if l.Bounded != "" {
+				c.mu.Lock()
+				c.bounded = append(c.bounded, fmt.Sprintf("lemma %s.%s: %s", specs.PkgName, l.Name, l.Bounded))
+				c.mu.Unlock()
 			}
 			wg.Add(1)
 			go func(l *Lemma) {
@@ -398,7 +407,7 @@ func writeEvidence(c *checkCtx, id, tier string, seed int64, all []OblResult, di
 		"outside_subset":           unsupportedL,
 		"known_findings":           knownHit,
 		"inventory_missing":        missing,
-		"bounded":                  c.prop.Bounded,
+		"bounded":                  append(append([]string{}, c.prop.Bounded...), c.bounded...),
 		"all_obligations":          names,
 		"integer_mode":             "mathematical Int with exact Go wrap-around semantics (ite/mod) for every fixed-width operation",
 	}
